@@ -26,6 +26,8 @@ def run(ctx, repo, tier):
     PR.node_adding(ctx, repo, "C18")
     PR.sorted_prefix(ctx, repo, "C18")
     PR.half_hypercube(ctx, repo, "C18")
+    PR.float_tolerances(ctx, repo, "C18")
+    PR.second_neighbour_search(ctx, repo, "C18")
     # deterministic shuffle
     ci = repo.cls(PR.PO, "Polytope")
     fi = ci.methods["_end_of_divison"]
